@@ -58,6 +58,18 @@ Eject9 == Acct(9, U(300), E32(5), 0, 0, U64Zero, << <<K1, V1>> >>, <<Lk(3, 4, <<
 Plain(id) == Acct(id, U(150), H(11), 0, 0, U64Zero, <<>>, <<>>, <<>>)
 
 Priv(m, r, a1, a2, v) == [bless |-> LE(m, 4), assign |-> <<LE(a1, 4), LE(a2, 4)>>, designate |-> LE(v, 4), create |-> LE(r, 4), always |-> <<>>]
+\* what fetch can see (HostAccumulate!FetchVals); the driver installs it from ctx.fx and logs it as pre.fx
+NoPkg == [has |-> 0, host |-> Zeros(4), u |-> Zeros(32), t |-> Zeros(4), j |-> <<>>, f |-> <<>>, items |-> <<>>]
+Fx(n, r, i, x, imp, p, o) == [n |-> n, r |-> r, i |-> i, x |-> x, imp |-> imp, p |-> p, o |-> o]
+Eta == [j \in 1..32 |-> 224 + (j % 16)]
+Item(s, h, g, a, e, ni, y) == [s |-> LE(s, 4), h |-> H(h), g |-> U(g), a |-> U(a), e |-> e, ni |-> ni, y |-> y]
+Pkg(ni) == [has |-> 1, host |-> LE(6, 4), u |-> H(12), t |-> LE(100, 4), j |-> <<4, 4, 4>>, f |-> <<5, 5>>,
+            items |-> <<Item(5, 13, 10, 11, 2, ni, <<6, 6, 6, 6>>), Item(6, 14, 12, 13, 0, 2 * ni, <<>>), Item(7, 15, 300, 70000, 3, 0, <<1>>)>>]
+AccFx == Fx(Eta, [has |-> 0, v |-> <<>>], [has |-> 0, v |-> 0], <<>>, <<>>, NoPkg, 2)
+\* refine: variant 1 has a package without imported segments (so the codec can encode it here), the work item is item 1
+RefFx(v) == Fx(<<>>, [has |-> IF v = 1 THEN 1 ELSE 0, v |-> IF v = 1 THEN <<1, 2, 3, 4, 5>> ELSE <<>>], [has |-> 1, v |-> IF v = 1 THEN 1 ELSE 0],
+               << <<<<9, 9>>, <<8>>>>, <<<<7, 7, 7>>>>, <<>> >>, << <<1>>, <<2, 3>>, <<>> >>, Pkg(IF v = 1 THEN 0 ELSE 1), 0)
+AuthFx(v) == Fx(<<>>, [has |-> 0, v |-> <<>>], [has |-> 0, v |-> 0], <<>>, <<>>, IF v = 1 THEN Pkg(0) ELSE NoPkg, 0)
 Ctx(svcs, priv) == [self |-> LE(5, 4), nextid |-> LE(70000, 4), t |-> LE(100, 4), svcs |-> svcs, xfers |-> <<>>, priv |-> priv,
                     yield |-> <<>>, prov |-> <<>>, vk |-> <<0>>, aq |-> <<>>, nkv |-> 0, machines |-> <<>>, nexp |-> 0, expd |-> <<>>, expoff |-> 0]
 \* accumulate contexts: rich / exactly at threshold (and 70042 taken) / huge / below threshold
@@ -68,8 +80,12 @@ AccCtx(v) ==
     [] OTHER -> Ctx(<<SelfBase(SubU(SelfThr, U(10))), Other, Eject7(U(300))>>, Priv(6, 5, 6, 6, 6))
 \* the driver creates machine k of the list through the calls machine and pages themselves (index k - 1, zero-filled pages)
 Machine(n) == [n |-> U(n), code |-> Prog, pc |-> U64Zero, acc |-> << <<32, "W">>, <<33, "R">> >>]
-RefCtx(v) == [Ctx(<<SelfBase(Add(SelfThr, U(1000))), Other>>, Priv(0, 0, 0, 0, 0))
-              EXCEPT !.machines = IF v = 2 THEN <<>> ELSE <<Machine(0), Machine(1)>>, !.nexp = 1, !.expoff = IF v = 2 THEN 3071 ELSE 0]
+\* refine: the item's service holds preimages with availability records of 0..3 slots (historical_lookup)
+BlobN(n) == [j \in 1..n |-> 40 + j]
+RefSelf == [SelfBase(Add(SelfThr, U(1000))) EXCEPT !.pre = <<[h |-> H(1), blob |-> Blob5], [h |-> H(2), blob |-> BlobN(3)], [h |-> H(3), blob |-> BlobN(4)],
+                                                               [h |-> H(4), blob |-> BlobN(6)], [h |-> H(5), blob |-> BlobN(7)], [h |-> H(6), blob |-> BlobN(2)]>>]
+RefCtx(v) == [Ctx(<<RefSelf, Other>>, Priv(0, 0, 0, 0, 0))
+              EXCEPT !.t = IF v = 2 THEN LE(15, 4) ELSE LE(100, 4), !.machines = IF v = 2 THEN <<>> ELSE <<Machine(0), Machine(1)>>, !.nexp = 1, !.expoff = IF v = 2 THEN 3071 ELSE 0]
 
 \* ---------------------------------------------------------------- argument partition
 \* a field: registers it sets, candidate tuples (the first g are "good": they let the call proceed)
@@ -106,7 +122,8 @@ ZV == <<U(5), U(3), U(4), U(6), U(7), U(2), U64Zero, U(9), Hi32, Add(U(5), Hi32)
 CallFields(k) ==
   CASE k = 0 -> <<>>
     [] k = 1 -> <<One(7, OutGood, OutV), One(8, 4, OffV), One(9, 5, LenV),
-                  One(10, 5, <<U64Zero, U(1), U(14), U(15), U(2), U(7), U(16), Hi32, UMax>>), One(11, 1, <<U64Zero, U(1), UMax>>), One(12, 1, <<U64Zero, U(1), UMax>>)>>
+                  One(10, 16, [q \in 1..16 |-> U(q - 1)] \o <<U(16), U(17), Hi32, Add(U(1), Hi32), UMax>>),
+                  One(11, 2, <<U64Zero, U(1), U(2), U(3), Hi32, UMax>>), One(12, 2, <<U64Zero, U(1), U(2), Hi32, UMax>>)>>
     [] k \in {2, 6} -> <<One(7, 4, SvcV), One(8, HashGood, HashV), One(9, OutGood, OutV), One(10, 4, OffV), One(11, 5, LenV)>>
     [] k = 3 -> <<One(7, 4, SvcV), Fld(<<8, 9>>, KeyGood, KeyP), One(10, OutGood, OutV), One(11, 4, OffV), One(12, 5, LenV)>>
     [] k = 4 -> <<Fld(<<7, 8>>, KeyGood, KeyP), Fld(<<9, 10>>, ValGood, ValP)>>
@@ -117,7 +134,7 @@ CallFields(k) ==
     [] k = 10 -> <<One(7, 2, MachV), Fld(<<8, 10>>, ValGood, ValP), One(9, 2, <<A(32, 100), A(32, 4090), A(33, 0), A(34, 0), U64Zero, Add(A(32, 0), Hi32), UMax>>)>>
     [] k = 11 -> <<One(7, 2, MachV), One(8, 3, <<U(32), U(40), U(16), U(15), U64Zero, U(1048575), U(1048576), Hi32, UMax>>),
                    One(9, 3, <<U(1), U(2), U64Zero, U(1048576), Hi32, UMax>>), One(10, 5, <<U64Zero, U(1), U(2), U(3), U(4), U(5), Hi32, UMax>>)>>
-    [] k = 12 -> <<One(7, 2, MachV), One(8, 3, <<A(33, 200), A(37, 0), A(32, 2000), A(33, 4090), A(34, 10), A(35, 0), U64Zero, Add(A(33, 200), Hi32), A(1048575, 4000), UMax>>)>>
+    [] k = 12 -> <<One(7, 2, MachV), One(8, 4, <<A(33, 200), A(37, 0), A(32, 2000), A(33, 3984), A(33, 3988), A(33, 3985), A(33, 4090), A(34, 10), A(35, 0), U64Zero, Add(A(33, 200), Hi32), A(1048575, 4000), UMax>>)>>
     [] k = 13 -> <<One(7, 2, MachV)>>
     [] k = 14 -> <<One(7, 3, ValV), One(8, InGood, InV(A(32, 1400), 8)), One(9, 3, ValV), One(10, 3, ValV),
                    Fld(<<11, 12>>, 4, << <<A(32, 1420), U(2)>>, <<A(32, 1420), U64Zero>>, <<A(35, 0), U64Zero>>, <<A(32, 1420), U(1)>>,
@@ -147,7 +164,13 @@ RegsOf(fields, pick) ==
       RECURSIVE go(_, _)
       go(regs, j) == IF j > Len(fields) THEN regs ELSE go(set(regs, j), j + 1)
   IN go(Filler, 1)
-Step(k, regs, gas) == [id |-> U(k), regs |-> regs, gas |-> gas]
+\* guest ranges whose digest / hash the driver records before the call (HostAccumulate!Probed)
+ProbesOf(k, regs) ==
+  CASE k = 15 -> << <<regs[9], 32 * QSize, "fnv">> >>
+    [] k = 16 -> << <<regs[8], 336 * NValidators, "fnv">> >>
+    [] k = 26 -> IF IsSmallInt(regs[10]) /\ Small32(regs[10]) /\ IntOf(regs[10]) <= 8192 THEN << <<regs[9], IntOf(regs[10]), "b2b">> >> ELSE <<>>
+    [] OTHER -> <<>>
+Step(k, regs, gas) == [id |-> U(k), regs |-> regs, gas |-> gas, probe |-> ProbesOf(k, regs)]
 
 \* ---------------------------------------------------------------- alphabets of the design models
 Regs6(w7, w8, w9, w10, w11, w12) == [i \in 1..13 |-> CASE i = 8 -> w7 [] i = 9 -> w8 [] i = 10 -> w9 [] i = 11 -> w10 [] i = 12 -> w11 [] i = 13 -> w12 [] OTHER -> Filler[i]]
@@ -171,5 +194,10 @@ FootAlphabet == <<Wr(1024, 2, 16), Wr(1024, 2, 4), Wr(1024, 2, 0), Wr(1040, 3, 1
                   Sol(0, 3), Sol(3, 4), Sol(7, 0), Sol(1, 5), Fgt(1, 5), Fgt(2, 3), Fgt(0, 3), Fgt(5, 7), Fgt(3, 4), NewC(0, Z)>>
 
 \* the state record the functional definitions work on
-State(regs, gas, ctx) == [regs |-> regs, gas |-> gas, acc |-> AccMap, data |-> DataCells, ctx |-> ctx, ybless |-> ctx.priv.bless]
+\* (design models: recorded digests are a fixed dummy, encodings are placeholders)
+DummyAux == [consts |-> Zeros(134), encp |-> <<>>, encx |-> Zeros(133), oall |-> <<2, 7, 7>>, oeach |-> <<<<7>>, <<7>>>>]
+State(regs, gas, ctx) == [regs |-> regs, gas |-> gas, acc |-> AccMap, data |-> DataCells, ctx |-> ctx, ybless |-> ctx.priv.bless,
+                          probe |-> <<>>, probed |-> <<>>, fx |-> AccFx, aux |-> DummyAux]
+StateK(k, regs, gas, ctx) == [State(regs, gas, ctx) EXCEPT !.probe = ProbesOf(k, regs),
+                                                           !.probed = [i \in 1..Len(ProbesOf(k, regs)) |-> IF ProbesOf(k, regs)[i][3] = "fnv" THEN U(77) ELSE H(1)]]
 =============================================================================
